@@ -893,6 +893,25 @@ def add_referenced_consts(repo, ex, lines):
             if re.search(r'\bconst\s+%s\b' % name, text):
                 continue
             added.append((name, 'pub const %s: %s = %s;' % (name, m.group(2).strip(), m.group(3).strip()), rel))
+    # ... and a constant of src/constants.rs reached by path (`crate::constants::NAME`, `constants::NAME`): the path
+    # is rewritten to the bare name and the constant copied in the same way
+    path_re = re.compile(r'\b(?:crate::)?constants::([A-Z][A-Z0-9_]*)\b')
+    pnames = sorted(set(path_re.findall(text)))
+    if pnames:
+        try:
+            csrc = open(os.path.join(repo, 'src/constants.rs')).read()
+        except OSError:
+            csrc = ''
+        cmask = code_mask(csrc) if csrc else None
+        decls = {}
+        if csrc:
+            for m in find_code(csrc, cmask, r'(?m)^(?:pub(?:\([^)]*\))?\s+)?const\s+([A-Z][A-Z0-9_]*)\s*:\s*([^=;]+)=([^;]*);'):
+                decls[m.group(1)] = 'pub const %s: %s = %s;' % (m.group(1), m.group(2).strip(), m.group(3).strip())
+        if all(n in decls for n in pnames):
+            lines = [(path_re.sub(lambda m: m.group(1), t), o) for t, o in lines]
+            for n in pnames:
+                if not re.search(r'\bconst\s+%s\b' % n, text) and not any(a[0] == n for a in added):
+                    added.append((n, decls[n], 'src/constants.rs'))
     if added:
         k = next((i for i, (t, _) in enumerate(lines) if t.strip().startswith('verus!') and t.strip().endswith('{')), None)
         if k is not None:
